@@ -591,7 +591,10 @@ def _flush(ctx, chk, rep, pending, enumerated):
         if ent["failures"]:
             rep.report(ent)
         elif nontriv and (G.size(ent["spec"]) >= 9 if enumerated
-                          else len(ctx.samples) < 2):
+                          else len(ctx.samples) < 2 and
+                          G.size(ent["spec"]) >= 12 and
+                          any(n[0] == "lit" for n, _, _ in
+                              G.walk(ent["spec"]))):
             # one enumerated tree, then Hypothesis trees
             if not enumerated or not ctx.samples:
                 ctx.sample({"tree": G.canon(ent["spec"]),
